@@ -74,19 +74,21 @@ func c05Scenarios(thorough bool) []c05Scen {
 	return out
 }
 
-func runC05(sc c05Scen) (*lncrun.Session, error) {
+func runC05(sc c05Scen) (*lncrun.Session, [2]int, error) {
+	var ids [2]int
 	s, err := lncrun.New(lncrun.Options{PrePaired: sc.prepaired, Patience: 90 * time.Second,
 		ReadBuf: sc.readBuf})
 	if err != nil {
-		return nil, err
+		return nil, ids, err
 	}
 	x := &lncExpect{s}
 	s.Serve()
 	c, srv := x.connect(1)
 	if c == nil {
 		s.Shutdown()
-		return s, nil
+		return s, ids, nil
 	}
+	ids = [2]int{c.ID, srv.ID}
 	fr := rand.New(rand.NewSource(sc.seed))
 	var fmu sync.Mutex
 	faulty := sc.faultFor != 0
@@ -174,7 +176,7 @@ func runC05(sc c05Scen) (*lncrun.Session, error) {
 	s.Rec.Emit("end", "complete", b2i(complete), "writtenC", int(c.Written()), "writtenS", int(srv.Written()),
 		"readByS", int(srv.ReadSoFar()), "readByC", int(c.ReadSoFar()))
 	s.Shutdown()
-	return s, nil
+	return s, ids, nil
 }
 
 // TestC05Streams runs the scenarios in parallel, in real time.
@@ -197,7 +199,7 @@ func TestC05Streams(t *testing.T) {
 			defer wg.Done()
 			sem <- struct{}{}
 			defer func() { <-sem }()
-			s, err := runC05(sc)
+			s, ids, err := runC05(sc)
 			if err != nil {
 				t.Errorf("%s: %v", sc.name, err)
 				return
@@ -206,7 +208,7 @@ func TestC05Streams(t *testing.T) {
 				"maxDelayMs": int(sc.maxDelay / time.Millisecond), "breaks": sc.breaks,
 				"faultForS": int(sc.faultFor / time.Second), "readBuf": sc.readBuf, "sizesC": sc.sizes[0], "sizesS": sc.sizes[1]}
 			ev := append([]trace.Event{{"ev": "reset", "scen": sc.name, "i": i,
-				"prepaired": b2i(sc.prepaired), "v1": 0}}, s.Rec.Events()...)
+				"prepaired": b2i(sc.prepaired), "v1": 0, "cconn": ids[0], "sconn": ids[1]}}, s.Rec.Events()...)
 			mu.Lock()
 			outs = append(outs, out{ev, desc})
 			mu.Unlock()
